@@ -204,6 +204,11 @@ var checkLeak = register("c08.leak", func(c LeakCase) *Violation {
 				return nil
 			}
 			if open {
+				// a predicate inside the chain itself (exists / existential comparison over the members)
+				// short-circuits on whichever member comes first: the two runs are then not comparable
+				if hasPredicate(p1.tree.Root) {
+					continue
+				}
 				if pr.a.Class == EOK && pr.b.Class == EOK && pr.name == "Query" && !silent &&
 					!sameMultiset(RenderSeq(pr.a.Items, true), RenderSeq(pr.b.Items, true)) {
 					return violf("a condition evaluated in a filter changed the result of the steps after it: %q -> %v but %q -> %v (silent=%v)", c1.Path, RenderSeq(pr.a.Items, true), c2.Path, RenderSeq(pr.b.Items, true), silent)
